@@ -9,6 +9,7 @@ package main
 
 import (
 	"bytes"
+	"encoding/binary"
 	"encoding/json"
 	"errors"
 	"fmt"
@@ -17,6 +18,7 @@ import (
 	"slices"
 	"sort"
 	"strings"
+	"sync"
 	"time"
 	"unicode/utf8"
 
@@ -533,7 +535,77 @@ func safeLevelGet(ll *sst.LevelList, key []byte) (res getRes) {
 	return getRes{"(GFound " + coqEntry(e.Key(), e.Value(), e.SeqNum(), e.IsDelete()) + ")", "found"}
 }
 
+// tableParams are the writer-side constants of the code under test (index spacing, bloom filter bits and hashes). The
+// property does not fix them, so they are read off a probe table written with the real TableWriter: the bloom block
+// states its size and hash count, the second index offset divided by the (constant) entry size is the spacing.
+type tableParams struct {
+	spacing int
+	bits    uint32
+	hashes  int
+}
+
+var (
+	probeOnce sync.Once
+	probed    tableParams
+	probeErr  error
+)
+
+func probeParams() (tableParams, error) {
+	probeOnce.Do(func() {
+		const n = 4000
+		fs := storage.NewMemoryFilesystem()
+		var es []kv.Entry
+		for i := 0; i < n; i++ {
+			es = append(es, &ent{k: []byte(fmt.Sprintf("%08d", i)), v: []byte{}, seq: uint64(i + 1)})
+		}
+		t, err := sst.NewTableWriter(fs, 0).Write(slices.Values(es))
+		if err != nil {
+			probeErr = err
+			return
+		}
+		defer runtime.KeepAlive(t)
+		d := t.Document()
+		raw := make([]byte, d.Size)
+		if _, err := fs.Open(d.URI).ReadAt(raw, 0); err != nil && err != io.EOF {
+			probeErr = err
+			return
+		}
+		le32 := func(o uint64) uint32 { return binary.LittleEndian.Uint32(raw[o:]) }
+		if len(raw) < 12 {
+			probeErr = fmt.Errorf("probe table too short")
+			return
+		}
+		meta := binary.LittleEndian.Uint64(raw[len(raw)-12:])
+		if meta+8 > uint64(len(raw)) {
+			probeErr = fmt.Errorf("probe table: bad meta offset")
+			return
+		}
+		bits, hashes := le32(meta), le32(meta+4)
+		idx := meta + 8 + uint64((bits+63)/64)*8
+		if idx+4 > uint64(len(raw)) {
+			probeErr = fmt.Errorf("probe table: bad bloom block")
+			return
+		}
+		m := le32(idx)
+		sp := n
+		if m >= 2 {
+			const entrySize = 4 + 8 + 8 + 1 + 4
+			sp = int(le32(idx+8)) / entrySize
+		}
+		if sp < 1 || bits == 0 {
+			probeErr = fmt.Errorf("probe table: spacing %d bits %d", sp, bits)
+			return
+		}
+		probed = tableParams{spacing: sp, bits: bits, hashes: int(hashes)}
+	})
+	return probed, probeErr
+}
+
 func execTab(c *hx.Case, ops []op) (*hx.Result, error) {
+	tp, err := probeParams()
+	if err != nil {
+		return nil, fmt.Errorf("cannot determine the table writer's constants: %v", err)
+	}
 	target := pInt(c, "target")
 	deep := pBool(c, "deep")
 	fp := pBool(c, "fp")
@@ -590,7 +662,6 @@ func execTab(c *hx.Case, ops []op) (*hx.Result, error) {
 		kvs[i] = e
 	}
 	var tables []*sst.Table
-	var err error
 	if target == 0 {
 		var t *sst.Table
 		t, err = tw.Write(slices.Values(kvs))
@@ -695,7 +766,7 @@ func execTab(c *hx.Case, ops []op) (*hx.Result, error) {
 			if ti > 2 {
 				break
 			}
-			bf := bloom.NewFilter(32*1024, 5)
+			bf := bloom.NewFilter(tp.bits, tp.hashes)
 			for _, k := range tableKeys[ti] {
 				bf.Add(k)
 			}
@@ -950,7 +1021,7 @@ func execTab(c *hx.Case, ops []op) (*hx.Result, error) {
 	}
 	var bls []string
 	if len(blooms) > 0 {
-		bf := bloom.NewFilter(32*1024, 5)
+		bf := bloom.NewFilter(tp.bits, tp.hashes)
 		for _, e := range es {
 			bf.Add(e.k)
 		}
@@ -965,7 +1036,7 @@ func execTab(c *hx.Case, ops []op) (*hx.Result, error) {
 	for _, e := range es {
 		ets = append(ets, coqEntry(e.k, e.v, e.seq, e.del))
 	}
-	term := fmt.Sprintf("TabC %s %s %d %s %s %s %s %s %s %s", hx.CoqBool(deep), coqEntries(ets), target,
+	term := fmt.Sprintf("TabC (mkTP %d %d %d) %s %s %d %s %s %s %s %s %s %s", tp.spacing, tp.bits, tp.hashes, hx.CoqBool(deep), coqEntries(ets), target,
 		hx.CoqList(otabs, "otable"), hx.CoqList(lks, "olookup"), hx.CoqList(scs, "oscan"), hx.CoqList(bls, "obloom"), hx.CoqList(lgs, "olget"),
 		hx.CoqList(fgs, "ofget"), hx.CoqList(fss, "ofscan"))
 	if deep {
